@@ -4,6 +4,7 @@ seeded/*/meta.json and seeded/RESULTS.md."""
 import json, glob, os, re
 
 NOTES = {
+ "C13-15": "missed at first (needs three simultaneous deviations on four members): schedule shape early-signer-leaves added (one member signs the designation and goes away, the others sleep through the validity window of the shared data)",
  "C19-12": "missed at first (needs a decision pending ahead of the cheque and a fourth, late vote: depth 6): seventh ledger exploration neofs-gas-legacy-n4-votes over the vote-collected decisions only, depth 7",
  "C04-11": "missed at first: a container whose length byte in front of the owner is 128",
  "C03-12": "ended as a harness error at first (Container could not be deployed on an even committee): a refused deployment during base-state preparation is the '... succeeds' clause failing, as a refused invocation already was",
